@@ -653,3 +653,43 @@ def spline_method_probe(p):
                 return dict(status="not-reproduced", detail="holds natively")
             return dict(status="confirmed", failing_input=dict(configuration=r["config"], decision_vector="numpy RandomState(0) sequence of the harness"), observed=r["detail"], expected=r["what"])
     return dict(status="error", detail="no such obligation")
+
+
+def clone_signal_probe(p):
+    """C12: two stages created from a template that declares a grid='bspline' variable against two stages declared
+    directly with the same content (real code): identical objective, constraints and bounds at a random point"""
+    import casadi as ca
+    from rockit import Ocp, MultipleShooting, DirectCollocation, Stage
+    Meth = dict(MS=lambda: MultipleShooting(N=3, M=2), DC=lambda: DirectCollocation(N=3, M=2, degree=2))[p.get("method", "MS")]
+    order = p.get("order", 2)
+    def build(direct):
+        ocp = Ocp()
+        def declare(st):
+            x = st.state(); u = st.control(); s = st.variable(grid="bspline", order=order)
+            st.set_der(x, u + 0.3 * s)
+            st.subject_to(st.at_t0(x) == 0); st.subject_to(s <= 1); st.subject_to(-2 <= (u <= 2))
+            st.add_objective(st.at_tf(x)); st.add_objective(st.integral(u ** 2))
+            st.method(Meth())
+            return st
+        if direct:
+            for t0 in (0.0, 1.0):
+                declare(ocp.stage(t0=t0, T=1.0))
+        else:
+            tm = declare(Stage(t0=0.0, T=1.0))
+            ocp.stage(tm, t0=0.0); ocp.stage(tm, t0=1.0)
+        ocp.solver("ipopt")
+        with contextlib.redirect_stdout(io.StringIO()):
+            ocp._transcribed
+        o = ocp._augmented._method.opti
+        F = ca.Function("F", [o.x, o.p], [o.f, o.g, o.lbg, o.ubg])
+        xv = np.random.RandomState(0).uniform(-1, 1, o.x.numel())
+        return [np.array(v).reshape(-1) for v in F(xv, np.zeros(o.p.numel()))], xv
+    try:
+        a, xv = build(True)
+        b, _ = build(False)
+    except Exception as e:
+        return dict(status="confirmed", failing_input=dict(p), observed="%s: %s" % (type(e).__name__, str(e)[:300]), expected="template with a b-spline signal can be instantiated")
+    for nm, u, v in zip(("objective", "g", "lbg", "ubg"), a, b):
+        if u.shape != v.shape or not np.allclose(u, v, rtol=1e-9, atol=1e-9, equal_nan=True):
+            return dict(status="confirmed", failing_input=dict(p, x=xv.tolist()), observed="%s of the cloned OCP differs from the directly declared one" % nm)
+    return dict(status="not-reproduced", detail="clones with a b-spline signal equal directly declared stages (%d rows)" % len(a[1]))
